@@ -1081,3 +1081,233 @@ def graph_helpers(run, src):
         run.undecide("system.System._rel_update/post", str(u))
     run.assumed.add("rustworkx.topological_sort / node_indices: every live node exactly once, indices >= 0")
     return obls
+
+
+# =================================================================================================== _get_parents / _get_childs
+def parents_childs(run, src):
+    """_get_parents: for every live node n the entry is -1 iff n has no predecessor; a single predecessor is listed as such; for a
+    node with several predecessors (the PMux) entry i is the node that its i-th stored parent name resolves to (priority order).
+    _get_childs: -1 iff no successor, else rustworkx' successor list.  Stated per iteration of the node loop (store events)."""
+    obls = []
+    NN = z3.Int("n_nodes"); NODE = z3.Function("node_at", I, I); INDEG = z3.Function("in_degree", I, I); OUTDEG = z3.Function("out_degree", I, I)
+    PRED = z3.Function("pred", I, I, I); SUCC = z3.Function("succ", I, I, I); PNAME = z3.Function("pname", I, I, NAME); IDX = z3.Function("get_index", NAME, I)
+    for which in ("_get_parents", "_get_childs"):
+        qual = "system.System." + which
+        eng = Engine(src)
+        nodes = Seq(NN, lambda j: SV(NODE(j), "int"), "nodes")
+        eng.overrides["system.System._get_nodes"] = lambda e, r, a, k: nodes
+        eng.overrides["system.System._get_index"] = lambda e, r, a, k: SV(IDX(to_z(a[0])), "int")
+        stores = []
+        ps = HMap(lambda n: None, lambda idx, v: stores.append((to_z(idx), v)), label="ps")
+        eng.np.methods["ones"] = lambda e, n, **k: Opaque("ones")
+        eng.np.attrs["int32"] = "int32"
+        from pyvc.engine import Builtin
+        eng.extra_globals["list"] = Builtin("list", lambda e, x=(): ps if isinstance(x, Opaque) and x.tag in ("ones", "negones") else list(e.iterate(x)))
+        eng.extra_globals["max"] = Builtin("max", lambda e, *a: e.fresh("maxnode", "int") if (len(a) == 1 and isinstance(a[0], Seq)) else max(*a))
+        orig_unary = eng.ev_UnaryOp
+        def ev_UnaryOp(x, orig=orig_unary, eng=eng):
+            v = eng.ev(x.operand)
+            if isinstance(x.op, ast.USub) and isinstance(v, Opaque) and v.tag == "ones": return Opaque("negones")
+            return orig(x)
+        eng.ev_UnaryOp = ev_UnaryOp
+        def gpred(e, n):
+            nz = to_z(n); return Seq(INDEG(nz), lambda j, nz=nz: SV(PRED(nz, j), "int"))
+        def gsucc(e, n):
+            nz = to_z(n); return Seq(OUTDEG(nz), lambda j, nz=nz: SV(SUCC(nz, j), "int"))
+        pn = HMap(lambda n: Seq(z3.Int("n_pnames"), lambda j, n=n: SV(PNAME(to_z(n), j), "name")), label="pnames")
+        g = Opaque("g", methods={"in_degree": lambda e, n: SV(INDEG(to_z(n)), "int"), "out_degree": lambda e, n: SV(OUTDEG(to_z(n)), "int"),
+                                 "predecessor_indices": gpred, "successor_indices": gsucc})
+        g.attrs["attrs"] = HMap(lambda key: {"pnames": pn}[key], label="self._g.attrs")
+        selfobj = Opaque("self", cls="System", attrs={"_g": g})
+        # the comprehension [i for i in <Seq of ints>] builds a fresh MUTABLE list
+        orig_comp = eng._comp
+        def comp(xn, kind, eng=eng, orig=orig_comp):
+            r = orig(xn, kind)
+            if isinstance(r, Seq) and not isinstance(r, MSeq) and not xn.generators[0].ifs and isinstance(xn.elt, ast.Name):
+                eng.fresh_n += 1
+                arr = z3.Array("list!%d" % eng.fresh_n, I, I); j = z3.Int("lj!%d" % eng.fresh_n)
+                eng.assume(z3.ForAll([j], z3.Implies(z3.And(j >= 0, j < r.ln), z3.Select(arr, j) == to_z(r.elem(j)))))
+                return MSeq(r.ln, arr)
+            return r
+        eng._comp = comp
+        jj = z3.Int("jj")
+        def inv_inner(env, k):
+            ind, n = env["ind"], to_z(env["n"])
+            return z3.ForAll([jj], z3.Implies(z3.And(jj >= 0, jj < k), z3.Select(ind.arr, jj) == IDX(PNAME(n, jj)))) if isinstance(ind, MSeq) else z3.BoolVal(False)
+        eng.loop_specs[(qual, "For", 0)] = LoopSpec(qual + "/for-nodes", inv=lambda env, k: z3.BoolVal(True))
+        eng.loop_specs[(qual, "For", 1)] = LoopSpec(qual + "/for-inputs", inv=inv_inner)
+        eng.extra_globals["range"] = Builtin("range", lambda e, *a: Seq(to_z(a[0]), lambda j: SV(j, "int")) if (len(a) == 1 and is_sym(a[0])) else range(*a))
+        def thunk(e):
+            del stores[:]
+            e.assume(NN >= 0); e.assume(z3.ForAll([jj], z3.And(INDEG(jj) >= 0, OUTDEG(jj) >= 0)))
+            r = e.call_method(selfobj, which, [])
+            return r
+        # record the store events of the arbitrary iteration
+        try:
+            paths = eng.explore(thunk)
+        except (Unsupported, FunctionMissing) as u:
+            run.undecide(qual + "/post", str(u)); continue
+        run.functions.update(eng.inlined)
+        obls += [dict(o, tags=["C05", "C14", "C01"]) for o in eng.obligations]
+        # the explore() thunk clears `stores` per path; capture per-path copies through a second pass
+        per_path = []
+        def thunk2(e):
+            r = thunk(e)
+            return r
+        eng2_paths = paths
+        # (stores list is shared; re-run each path deterministically to read its stores)
+        for pi, p in enumerate(paths):
+            eng._reset_path(p.decisions); eng._stack = []
+            try:
+                thunk(eng); kind = "return"
+            except PathEnd:
+                kind = "end"
+            except PyRaise:
+                kind = "raise"
+            st = list(stores); pc = list(eng.pc); loc_n = None
+            it = p.extra.get("iterating")
+            if kind == "raise":
+                obls.append({"id": qual + "/never-raises@p%d" % pi, "hyps": pc, "goal": z3.BoolVal(False), "kind": "post", "tags": ["C05", "C14"], "meta": {}}); continue
+            if it != qual + "/for-nodes" or kind != "end": continue
+            # this path is one arbitrary iteration of the node loop: n = NODE(k)
+            k = [c for c in pc]
+            nvar = None
+            for (idx, v) in st: nvar = idx
+            deg = INDEG if which == "_get_parents" else OUTDEG
+            if not st:
+                # no store: allowed only for a node without predecessors / successors (entry stays -1)
+                obls.append({"id": qual + "/post:entry left at -1 only for a node without %s@p%d" % ("predecessors" if which == "_get_parents" else "successors", pi), "hyps": pc,
+                             "goal": z3.Exists([jj], z3.And(jj >= 0, jj < NN, deg(NODE(jj)) <= 0)), "kind": "post", "tags": ["C05", "C14", "C01"], "meta": {}})
+                continue
+            idx, v = st[-1]
+            m = z3.Int("m")
+            if which == "_get_parents":
+                ok = isinstance(v, Seq)
+                content = z3.And(v.ln == INDEG(idx), z3.Implies(z3.And(m >= 0, m < INDEG(idx)),
+                                 to_z(v.elem(m)) == z3.If(INDEG(idx) > 1, IDX(PNAME(idx, m)), PRED(idx, m)))) if ok else z3.BoolVal(False)
+                obls.append({"id": qual + "/post:a node's entry = its predecessor (one parent) or the nodes its stored parent names resolve to, in priority order (several)@p%d" % pi,
+                             "hyps": pc + [z3.Int("n_pnames") >= INDEG(idx)], "goal": z3.And(INDEG(idx) > 0, content), "kind": "post", "tags": ["C05", "C14", "C01"], "meta": {}})
+            else:
+                ok = isinstance(v, Seq)
+                content = z3.And(v.ln == OUTDEG(idx), z3.Implies(z3.And(m >= 0, m < OUTDEG(idx)), to_z(v.elem(m)) == SUCC(idx, m))) if ok else z3.BoolVal(False)
+                obls.append({"id": qual + "/post:a node's entry = its successors@p%d" % pi, "hyps": pc, "goal": z3.And(OUTDEG(idx) > 0, content), "kind": "post", "tags": ["C01", "C14"], "meta": {}})
+            obls.append({"id": qual + "/canary@p%d" % pi, "hyps": pc, "goal": z3.BoolVal(False), "kind": "canary", "tags": ["C05"], "meta": {}})
+    run.assumed.add("rustworkx in_degree / out_degree / predecessor_indices / successor_indices; numpy -ones(n) as a list of -1")
+    return obls
+
+
+# =================================================================================================== initial vectors: _get_state / _get_outp_voltage / _get_inp_current, _sys_init
+def init_contracts(run, src):
+    from contracts import spec as S
+    from contracts.components import Comp, Args, PHASE, ALL_K
+    obls = []
+    for K in ALL_K:
+        comp = Comp(K); a = Args(comp)
+        P = comp.P
+        inactive = a.inactive
+        for meth in ("_get_state", "_get_outp_voltage", "_get_inp_current"):
+            qual = "components.%s.%s" % (comp.cls, meth) + ("[%s]" % K.split(":")[1] if ":" in K else "")
+            eng = Engine(src)
+            def thunk(e, comp=comp, a=a, meth=meth):
+                obj = comp.build(e); a.assume(e)
+                return e.call_method(obj, meth, [PHASE, a.pc])
+            try:
+                paths = eng.explore(thunk)
+            except (Unsupported, FunctionMissing) as u:
+                run.undecide(qual + "/post", str(u)); continue
+            run.functions.update(eng.inlined)
+            for pi, p in enumerate(paths):
+                if p.kind != "return":
+                    obls.append({"id": qual + "/never-raises@p%d" % pi, "hyps": p.pc, "goal": z3.BoolVal(False), "kind": "post", "tags": ["C04", "C06"], "meta": {}}); continue
+                v = p.value
+                if meth == "_get_state":
+                    want = z3.Or(P["vo"] == 0, inactive) if K == "Source" else z3.BoolVal(False)
+                    goal = (to_z(v["off"][0]) == want) if isinstance(v, dict) and "off" in v else z3.BoolVal(False)
+                    txt = "OFF iff 0 V source or inactive in the phase (other kinds: never off by themselves)"
+                elif meth == "_get_outp_voltage":
+                    want = z3.If(inactive, z3.RealVal(0), P["vo"]) if K in ("Source", "Converter", "LinReg") else z3.RealVal(0)
+                    goal = to_z(v, "real") == want; txt = "initial voltage = configured vo, 0 when inactive (non-regulating kinds: 0)"
+                else:
+                    if K == "Converter": want = z3.If(inactive, P["iis"], P["iq"])
+                    elif K == "LinReg": want = z3.If(inactive, P["iis"], comp.G(z3.RealVal(0), z3.RealVal(0)))
+                    elif K == "ILoad": want = z3.If(z3.Not(a.pc.nonempty), P["ii"], z3.If(z3.Not(a.pc.contains(PHASE)), P["iis"], ZABS(a.pc.value(PHASE))))
+                    else: want = z3.RealVal(0)
+                    goal = to_z(v, "real") == want; txt = "initial current follows the phase (sleep current when inactive / phase value for a current load)"
+                obls.append({"id": "%s/post:%s@p%d" % (qual, txt, pi), "hyps": p.pc, "goal": goal, "kind": "post", "tags": ["C04", "C06", "C03"], "meta": {}})
+    # ---- _sys_init: every node gets ITS OWN initial values for the phase being solved; a non-root's off flags are its parents' states
+    qual = "system.System._sys_init"
+    H = Heap()
+    NN = z3.Int("n_nodes"); NODE = z3.Function("node_at", I, I)
+    V0 = z3.Function("init_v", I, Rl); I0 = z3.Function("init_i", I, Rl); ST0 = z3.Function("init_off", I, Bo)
+    phase = SV(z3.Const("phase", NAME), "name")
+    eng = Engine(src)
+    def comp(c):
+        cz = to_z(c)
+        def chk(e, ph, pconf, what, cz=cz):
+            g1 = e.equal(ph, phase); g1 = z3.BoolVal(g1) if isinstance(g1, bool) else g1
+            e.oblige("%s/call:%s(phase being solved, the node's own phase configuration)" % (qual, what), z3.And(g1, (to_z(pconf) == H.LK(cz)) if is_sym(pconf) else z3.BoolVal(False)), kind="callsite")
+        def gv(e, ph, pconf): chk(e, ph, pconf, "_get_outp_voltage"); return SV(V0(cz), "real")
+        def gi(e, ph, pconf): chk(e, ph, pconf, "_get_inp_current"); return SV(I0(cz), "real")
+        def gs(e, ph, pconf): chk(e, ph, pconf, "_get_state"); return {"off": [SV(ST0(cz), "bool")]}
+        return Opaque("comp", methods={"_get_outp_voltage": gv, "_get_inp_current": gi, "_get_state": gs})
+    g = HMap(comp, label="self._g")
+    stores = []
+    def mk(label):
+        return HMap(lambda n: {"__slot__": (label, to_z(n))}, lambda idx, v, label=label: stores.append((label, to_z(idx), v)), label=label)
+    class StateMap(HMap): pass
+    def state_get(n):
+        nz = to_z(n)
+        return Opaque("state-slot", setitem=lambda e, k, v, nz=nz: stores.append(("state[%s]" % k, nz, v)))
+    st = HMap(state_get, lambda idx, v: stores.append(("state", to_z(idx), v)), label="state")
+    eng.overrides["system.System._sys_vars"] = lambda e, r, a, k: (mk("v"), mk("i"), st)
+    eng.overrides["system.System._set_phase_lkup"] = lambda e, r, a, k: e.event("set_phase_lkup")
+    eng.overrides["system.System._get_nodes"] = lambda e, r, a, k: Seq(NN, lambda j: SV(NODE(j), "int"))
+    selfobj = Opaque("self", cls="System", attrs={"_g": g, "_parents": HMap(H.parents), "_phase_lkup": HMap(lambda m: SV(H.LK(to_z(m)), "int"))})
+    eng.loop_specs[(qual, "For", 0)] = LoopSpec(qual + "/for-nodes", inv=lambda env, k: z3.BoolVal(True))
+    def thunk(e):
+        del stores[:]
+        e.assume(NN >= 0)
+        return e.call_method(selfobj, "_sys_init", [phase])
+    try:
+        paths = eng.explore(thunk)
+        run.functions.update(eng.inlined)
+        obls += [dict(o, tags=["C04", "C06", "C03"]) for o in eng.obligations]
+        for pi, p in enumerate(paths):
+            eng._reset_path(p.decisions); eng._stack = []
+            try: thunk(eng); kind = "return"
+            except PathEnd: kind = "end"
+            except PyRaise: kind = "raise"
+            pc, stl = list(eng.pc), list(stores)
+            if kind == "raise":
+                obls.append({"id": qual + "/never-raises@p%d" % pi, "hyps": pc, "goal": z3.BoolVal(False), "kind": "post", "tags": ["C04", "C06"], "meta": {}}); continue
+            if kind != "end": 
+                obls.append({"id": qual + "/post:phase look-up rebuilt before the initial vectors@p%d" % pi, "hyps": pc, "goal": z3.BoolVal(any(ev[0] == "set_phase_lkup" for ev in eng.events)), "kind": "post", "tags": ["C06"], "meta": {}}); continue
+            byl = {}
+            for (label, idx, v) in stl: byl.setdefault(label, []).append((idx, v))
+            nv = byl.get("v", [(None, None)])[-1][0]
+            if nv is None:
+                obls.append({"id": qual + "/post:v[n] stored@p%d" % pi, "hyps": pc, "goal": z3.BoolVal(False), "kind": "post", "tags": ["C04", "C06"], "meta": {}}); continue
+            n = nv
+            goal_vi = z3.And(to_z(byl["v"][-1][1], "real") == V0(n), z3.BoolVal("i" in byl) if True else None)
+            if "i" in byl: goal_vi = z3.And(goal_vi, byl["i"][-1][0] == n, to_z(byl["i"][-1][1], "real") == I0(n))
+            obls.append({"id": qual + "/post:v[n], i[n] = the node's own initial voltage / current@p%d" % pi, "hyps": pc, "goal": goal_vi, "kind": "post", "tags": ["C04", "C06", "C03"], "meta": {}})
+            j = z3.Int("sj")
+            if "state" in byl:        # root: its own state
+                idx, v = byl["state"][-1]
+                ok = isinstance(v, dict) and "off" in v
+                obls.append({"id": qual + "/post:a root's state is its own state@p%d" % pi, "hyps": pc, "goal": z3.And(H.ROOT(n), idx == n, to_z(v["off"][0]) == ST0(n)) if ok else z3.BoolVal(False), "kind": "post", "tags": ["C04", "C06"], "meta": {}})
+            elif "state[off]" in byl:
+                idx, v = byl["state[off]"][-1]
+                ok = isinstance(v, Seq)
+                goal = z3.And(z3.Not(H.ROOT(n)), idx == n, v.ln == H.NPA(n), z3.Implies(z3.And(j >= 0, j < H.NPA(n)), to_z(v.elem(j)) == ST0(H.PA(n, j)))) if ok else z3.BoolVal(False)
+                obls.append({"id": qual + "/post:a non-root's off flags are the initial states of its parents, in order@p%d" % pi, "hyps": pc, "goal": goal, "kind": "post", "tags": ["C04", "C06", "C05"], "meta": {}})
+            else:
+                obls.append({"id": qual + "/post:state[n] stored@p%d" % pi, "hyps": pc, "goal": z3.BoolVal(False), "kind": "post", "tags": ["C04", "C06"], "meta": {}})
+            obls.append({"id": qual + "/canary@p%d" % pi, "hyps": pc, "goal": to_z(byl["v"][-1][1], "real") == V0(n) + 1, "kind": "canary", "tags": ["C04"], "meta": {}})
+    except (Unsupported, FunctionMissing) as u:
+        run.undecide(qual + "/post", str(u))
+    return obls
+
+
+def ZABS(t):
+    return z3.If(t >= 0, t, -t)
